@@ -13,6 +13,19 @@ def check(tier, seed):
                             timeout_ms=20000 if tier == "thorough" else 10000,
                             skip=lambda oid: oid.endswith("position-in-text"))  # error positions belong to C01
     run.cov["parts"]["engine_a"] = verdicts
+    # A1b. the same Lexer contracts evaluated at run time on the string and block-string families of the lexer corpus (every combination of the string pieces - escapes,
+    # quotes, escaped and plain triple quotes, line ends, controls, astral characters - up to the tier's length): decoded values and token spans are the specification's;
+    # this is what decides when a string reader leaves Engine A's subset (error positions stay with C01)
+    total, accepted, sfails, evals = frontend.lexer_standin(LEX.CONTRACTS, tier, jobs, only=lambda t: '"' in t)
+    if accepted == 0:
+        raise MachineryDefect("no string text was tokenised")
+    run.cov["evaluations"] += total
+    run.cov["bounded_functions"].append({"functions": ["Lexer._read_string", "Lexer._read_block_string", "Lexer._read_escape_sequence", "Lexer._read_escaped_unicode", "Lexer.__next__"],
+                                         "bound": "%d texts of the lexer corpus containing a quote (run-time contracts + whole-text tokenisation law)" % total})
+    for clause, witness, detail in sfails:
+        if "position-in-text" in clause:
+            continue
+        run.violation(clause, detail, witness if isinstance(witness, dict) else {"text": witness}, True)
     # A2. deductive: node class / constructor keywords / span discipline of every node the parser builds (Engine B, P5)
     engine_b.run(run, "C02")
     # B. bounded: parse_block_string == BlockStringValue
